@@ -872,13 +872,20 @@ class FunTrans(object):
                 fail(it, "enumerate() of a non-list")
             return b1, "(combine (zrange 0 (zlen %s) 1) %s)" % (x1, x1), ("tuple", ("int", t1[1]))
         if isinstance(it, ast.Call) and isinstance(it.func, ast.Name) and it.func.id == "zip" and "zip" not in env:
-            if it.keywords or len(it.args) != 2:
+            if it.keywords or len(it.args) not in (2, 3):
                 fail(it, "zip() arguments")
             b1, x1, t1 = self.expr(it.args[0], env)
             b2, x2, t2 = self.expr(it.args[1], env)
             t1, t2 = resolve(t1), resolve(t2)
             if not (isinstance(t1, tuple) and t1[0] == "list" and isinstance(t2, tuple) and t2[0] == "list"):
                 fail(it, "zip() of non-lists")
+            if len(it.args) == 3:
+                # zip(a, b, c): triples ((x, y), z) - stops at the shortest list, like the nested combine
+                b3, x3, t3 = self.expr(it.args[2], env)
+                t3 = resolve(t3)
+                if not (isinstance(t3, tuple) and t3[0] == "list"):
+                    fail(it, "zip() of non-lists")
+                return b1 + b2 + b3, "(combine (combine %s %s) %s)" % (x1, x2, x3), ("tuple", (t1[1], t2[1], t3[1]))
             return b1 + b2, "(combine %s %s)" % (x1, x2), ("tuple", (t1[1], t2[1]))
         if isinstance(it, ast.Call) and isinstance(it.func, ast.Name) and it.func.id == "reversed" and "reversed" not in env:
             if it.keywords or len(it.args) != 1:
@@ -2793,7 +2800,7 @@ SPEC = {
     # compiled against them stays valid; later additions live in their own generated files ("pymodule" = the Python module
     # the functions are reported under by --check).
     "order": ["_linalg", "linalg", "knotvector", "helpers", "linalg/geom", "_voxelize", "utilities", "linalg/mat", "helpers/b", "fitting",
-              "helpers/c", "evaluators", "compatibility", "_operations", "utilities/b", "fitting/b", "linalg/b", "linalg/c", "_voxelize/b"],
+              "helpers/c", "evaluators", "compatibility", "_operations", "utilities/b", "fitting/b", "linalg/b", "linalg/c", "_voxelize/b", "fitting/c"],
     "modules": {
         "_linalg": {"file": "geomdl/_linalg.py", "coq_module": "LinalgInternal", "imports": [], "functions": [
             {"name": "doolittle", "params": {"matrix_a": MAT}, "returns": "tuple[%s,%s]" % (MAT, MAT)},
@@ -3079,6 +3086,17 @@ SPEC = {
             {"name": "interpolate_surface",
              "params": {"points": MAT, "size_u": "int", "size_v": "int", "degree_u": "int", "degree_v": "int"},
              "static_kwargs": {"centripetal": False}, "returns": "obj:surfdata", "constructs": {"BSpline.Surface": "surfdata"}, "alias_ok": True,
+             "abstract_calls": {"linalg.point_distance": {"param": "dist", "type": "fn(list[float],list[float])->float"}}},
+        ]},
+        # least-squares approximation (in a file of its own: FittingB.v is compiled against by GenTieFitB / GenTieFitSurf).
+        # ctrlpts_size has a computed default (num_dpts - 1): the keyword must be given.  alias_ok: matrix_n.append(m_temp) / pt0 = points[0] ...
+        # store lists under second names; m_temp is rebound in the next pass, points of the argument are never updated (ctrlpts[0] = list(..)
+        # is a copy; ctrlpts[j][i] = ... updates rows of the fresh zero matrix or those copies).
+        "fitting/c": {"file": "geomdl/fitting.py", "pymodule": "fitting", "coq_module": "FittingC", "requires": ["PreludeExt", "PreludeExt2"],
+                      "imports": ["linalg", "helpers", "fitting", "fitting/b"],
+                      "objects": {"curvedata2": {"degree": "int", "ctrlpts": MAT, "knotvector": "list[float]"}}, "functions": [
+            {"name": "approximate_curve", "params": {"points": MAT, "degree": "int"}, "kwargs": {"ctrlpts_size": "int"},
+             "static_kwargs": {"centripetal": False}, "returns": "obj:curvedata2", "constructs": {"BSpline.Curve": "curvedata2"}, "alias_ok": True,
              "abstract_calls": {"linalg.point_distance": {"param": "dist", "type": "fn(list[float],list[float])->float"}}},
         ]},
         # ---- fourth round, stage 4: geomdl/linalg.py leftovers (C16)
